@@ -23,9 +23,9 @@ META = dict(
     stubs=["os.listdir('/proc')", "open() of /proc/<pid>/{stat,status}", "os.kill"],
     bounds=dict(quick=dict(pool="4 PIDs + 1 thread id, presence and re-use per step symbolic", history="K<=2 steps of {table change, full iteration, partial iteration, cache_clear, is_running on cached objects}", pid_exists="one unconstrained integer"),
                 thorough=dict(pool="as quick", history="K<=4", pid_exists="as quick")),
-    outside=["two threads iterating at once at source-line granularity (see DESIGN 5.4: explored by the C04.race harness when present)", "more than 4 PIDs"],
+    outside=["more than 2 threads / more than 2 pre-emptions; races inside one source line", "more than 4 PIDs"],
     labels=["pids-ascending-listed", "ascending-one-per-listed-pid", "same-object-while-listed", "fresh-object-after-detected-reuse", "cache-holds-exactly-listed", "is_running", "pid_exists-listed",
-            "pid_exists-any-int", "attrs-info-keys", "partial-iteration-skips-vanished"],
+            "pid_exists-any-int", "attrs-info-keys", "partial-iteration-skips-vanished", "race-no-exception"],
 )
 
 
@@ -191,6 +191,29 @@ def partial(ctx, consume):
     ctx.prove(got == sorted(got) and len(got) == len(set(got)) and set(got) <= set(started), "partial-iteration-skips-vanished", detail=f"{got} started={started}")
     still = [p for p in started if t.present[p]]
     ctx.prove(set(still) <= set(got), "partial-iteration-skips-vanished", detail=f"{got} must include {still}")
+
+
+@harness("C04.race", quick=[dict(P=1)], thorough=[dict(P=2)], timeout_ms=5000)
+def race(ctx, P):
+    """two threads iterating at once (source-line granularity, at most P pre-emptions): no exception, each sequence ascending
+    and made of listed PIDs"""
+    from psv import sched
+
+    k = simk.Kernel(ctx)
+    simk.system_files(k)
+    t = Table(ctx, k)
+    flagged = ctx.flag("one_pid_flagged_reused")
+    S = sched.Scheduler(ctx, budget=P, files={simk.REPO + "/psutil/__init__.py"})
+    with k.installed(extra=[(psutil, "threading", sched.ThreadingProxy(S))]):
+        list(psutil.process_iter())
+        if flagged:
+            psutil._pids_reused.add(12)         # as if is_running() had just found PID 12 recycled
+        res = S.run([lambda: [x.pid for x in psutil.process_iter()], lambda: [x.pid for x in psutil.process_iter()]])
+    for i in (0, 1):
+        kind, val = res[i]
+        ctx.prove(kind == "ok", "race-no-exception", detail=f"thread {i}: {val!r} after pre-emptions at {S.trace}")
+        if kind == "ok":
+            ctx.prove(val == sorted(val) and set(val) <= set(t.listed()), "race-ascending-listed", detail=f"thread {i}: {val}")
 
 
 @harness("C04.pid_exists")
